@@ -121,6 +121,73 @@ def run(chk, tier, seed):
     finally:
         bracex.iexpand = real_iexpand
         os.rmdir(tmp)
+    # plain LISTS of patterns with neither BRACE nor SPLIT in the flags: the number of patterns counts all the same
+    plain = {
+        'fnmatch.fnmatch': lambda p, e, L, F=0: fnmatch.fnmatch('x', p, flags=F, limit=L, exclude=e), 'fnmatch.filter': lambda p, e, L, F=0: fnmatch.filter(['x'], p, flags=F, limit=L, exclude=e),
+        'fnmatch.translate': lambda p, e, L, F=0: fnmatch.translate(p, flags=F, limit=L, exclude=e), 'fnmatch.compile': lambda p, e, L, F=0: fnmatch.compile(p, flags=F, limit=L, exclude=e),
+        'glob.globmatch': lambda p, e, L, F=0: glob.globmatch('x', p, flags=F, limit=L, exclude=e), 'glob.globfilter': lambda p, e, L, F=0: glob.globfilter(['x'], p, flags=F, limit=L, exclude=e),
+        'glob.translate': lambda p, e, L, F=0: glob.translate(p, flags=F, limit=L, exclude=e), 'glob.compile': lambda p, e, L, F=0: glob.compile(p, flags=F, limit=L, exclude=e),
+        'glob.glob': lambda p, e, L, F=0: glob.glob(p, flags=F, limit=L, exclude=e, root_dir=tmp3), 'pathlib.match': lambda p, e, L, F=0: pathlib.PurePath('x').match(p, flags=F, limit=L, exclude=e),
+        'pathlib.globmatch': lambda p, e, L, F=0: pathlib.PurePath('x').globmatch(p, flags=F, limit=L, exclude=e), 'pathlib.full_match': lambda p, e, L, F=0: pathlib.PurePath('x').full_match(p, flags=F, limit=L, exclude=e),
+        'pathlib.glob': lambda p, e, L, F=0: list(pathlib.Path(tmp3).glob(p, flags=F, limit=L, exclude=e)),
+    }
+    tmp3 = tempfile.mkdtemp(prefix='c11-')
+    try:
+        for name, fn in plain.items():
+            for L in (3, 10):
+                for ni, ne in ((L, 0), (L + 1, 0), (L - 1, 1), (L - 1, 2), (1, L), (1, L - 1)):
+                    pats = [f'p{k}' for k in range(ni)]
+                    excl = [f'e{k}' for k in range(ne)] or None
+                    for F, fname in ((0, '0'), (fnmatch.E | fnmatch.N, 'EXTMATCH|NEGATE')):
+                        if excl and F:
+                            continue
+                        try:
+                            fn(pats, excl, L, F)
+                            raised = False
+                        except PLE:
+                            raised = True
+                        chk.case(key=('plain-list', name, L, ni, ne, fname))
+                        if raised != (ni + ne > L):
+                            chk.violation(dict(obligation='C11.bounded.plain_list_without_BRACE_or_SPLIT', api=name, patterns=pats, exclude=excl, limit=L, flags=fname),
+                                          f'{name}({ni} patterns, exclude={ne} patterns, flags={fname}, limit={L}): raised={raised}, the limit demands {ni + ne > L}',
+                                          f"import sys; sys.path.insert(0, {REPO!r})\nfrom wcmatch import fnmatch, glob, _wcparse\ntry:\n    "
+                                          f"{'fnmatch.fnmatch' if name.startswith('fnmatch') else 'glob.globmatch'}('x', {pats!r}, flags={F}, limit={L}, exclude={excl!r}); print('no exception')\n"
+                                          f"except _wcparse.PatternLimitException as e:\n    print('PatternLimitException', e)\nsys.exit(1)\n")
+    finally:
+        os.rmdir(tmp3)
+    # SPLIT is lazy too: a pattern with far more `|` alternatives than the limit is not split to the end before the limit trips
+    real_split = _wcparse.WcSplit.split
+    pulled = {'n': 0}
+
+    def counting_split(self):
+        for piece in real_split(self):
+            pulled['n'] += 1
+            yield piece
+    many = '|'.join('n%d' % k for k in range(20000))
+    tmp4 = tempfile.mkdtemp(prefix='c11-')
+    try:
+        _wcparse.WcSplit.split = counting_split
+        S = fnmatch.S
+        for name, call in (('fnmatch.fnmatch', lambda L: fnmatch.fnmatch('x', many, flags=S, limit=L)), ('fnmatch.translate', lambda L: fnmatch.translate(many, flags=S, limit=L)),
+                           ('glob.globmatch', lambda L: glob.globmatch('x', many, flags=S, limit=L)), ('glob.glob', lambda L: glob.glob(many, flags=S, limit=L, root_dir=tmp4)),
+                           ('fnmatch.filter(exclude=)', lambda L: fnmatch.filter(['x'], 'x', flags=S, limit=L, exclude=many)), ('pathlib.match', lambda L: pathlib.PurePath('x').match(many, flags=S, limit=L)),
+                           ('WcMatch', lambda L: wcmatch.WcMatch(tmp4, many, limit=L))):
+            for L in (5, 50):
+                pulled['n'] = 0
+                try:
+                    call(L)
+                    raised = False
+                except PLE:
+                    raised = True
+                chk.case(key=('split-work', name, L))
+                if not raised or pulled['n'] > 2 * (L + 1):
+                    chk.violation(dict(obligation='C11.bounded.split_work_is_bounded_by_the_limit', api=name, limit=L, pulled=pulled['n']),
+                                  f'{name}(20000 `|` alternatives, SPLIT, limit={L}): raised={raised}, {pulled["n"]} pieces were produced by the splitter (more than about L+1)',
+                                  f"import sys, time; sys.path.insert(0, {REPO!r})\nfrom wcmatch import fnmatch, _wcparse\nmany = '|'.join('n%d' % k for k in range(200000))\nt = time.time()\n"
+                                  f"try:\n    fnmatch.fnmatch('x', many, flags=fnmatch.S, limit={L})\nexcept _wcparse.PatternLimitException:\n    pass\nprint('seconds', time.time() - t)\nsys.exit(1)\n")
+    finally:
+        _wcparse.WcSplit.split = real_split
+        os.rmdir(tmp4)
     # WcMatch: file pattern only (its exclude is a separate compile), default limit
     pulls_w = []
     for L in limits:
